@@ -202,7 +202,8 @@ class Gen:
         if len(parts) == 2:
             m9 = parts[0] + ec['COMPONENT'] + parts[1] + ec['COMPONENT'] + mtype
         else:
-            m9 = mtype
+            # a structure named without an event (ACK): MSH-9 must still carry the structure component, or no structure can be looked up
+            m9 = mtype + ec['COMPONENT'] + ec['COMPONENT'] + mtype
         return fs.join(['MSH', m2, 'SND', 'FAC', 'RCV', 'RFAC', '20200101120000', '', m9, ctrl, 'P', self.version])
 
 
